@@ -154,7 +154,7 @@ def _enclosing_try(fn, target):
     return best
 
 
-@rule("C20.lock-window", ["C20"],
+@rule("C20.lock-window", ["C20", "C19"],
       "every propagating assignment of sync_trait happens while this side is "
       "locked, only when the partner is not locked, swallows the partner's "
       "errors, and the lock is released on every exit")
